@@ -51,8 +51,8 @@ def g09(pid, tier, replay):
 def g11(pid, tier, replay):
     plan = {
         "design": [("GraphMachine", "GraphMachine_frames.cfg", 900)],
-        "gens": [{"args": ["--mode", "readonly", "--n", "150" if tier == Q else "1500", "--len", "24", "--ids", "5"]},
-                 {"args": ["--mode", "edit", "--n", "100" if tier == Q else "1000", "--len", "10", "--ids", "5", "--rich", "0.5"]}],
+        "gens": [{"args": ["--mode", "readonly", "--n", "150" if tier == Q else "10000", "--len", "24", "--ids", "5"]},
+                 {"args": ["--mode", "edit", "--n", "100" if tier == Q else "6000", "--len", "10", "--ids", "5", "--rich", "0.5"]}],
         "rule": "operands with every schema field populated by reflection (probability 0.6) and unsorted roots, targets and "
                 "attribute lists; every read-only / value-returning public operation incl. the three serializers; ALL "
                 "registers are snapshotted before and after every call; distinct by (operation, operands)",
@@ -83,7 +83,7 @@ def g12(pid, tier, replay):
     plan = {
         "heap": True,
         "design": [("GraphMachine", "GraphMachine_frames.cfg", 900)],
-        "gens": [{"args": ["--mode", "heap", "--n", "300" if tier == Q else "3000", "--len", "14", "--ids", "4"]}],
+        "gens": [{"args": ["--mode", "heap", "--n", "300" if tier == Q else "30000", "--len", "14", "--ids", "4"]}],
         "rule": "histories op; Mutate; op; Mutate over four registers: copies, unions and intersections of shared operands "
                 "interleaved with reflective mutation of one mutable location (every scalar, list element, map entry, "
                 "append, truncate, nested message, chosen by index over the schema); address sets of results and operands "
@@ -149,7 +149,7 @@ def n13(pid, tier, replay):
 
 
 def c18(pid, tier, replay):
-    n = 60 if tier == Q else 600
+    n = 60 if tier == Q else 4000
     plan = {
         "module": "TraceConfig", "cfg": "TraceConfig.cfg", "own": r"^config\..*$",
         "design": [("Config", "Config_isolated.cfg", 900)],
@@ -169,7 +169,7 @@ def c18(pid, tier, replay):
     def prepare(scratch, plan, vh):
         # behaviours of Config.tla (simulation) are executed on the real constructors as well
         dest = scratch.path("config-scripts.ndjson")
-        ns, gen = graph.export_scripts(scratch, 160 if tier == Q else 1600, 12, dest, cfg="Config_sim.cfg", module="Config")
+        ns, gen = graph.export_scripts(scratch, 160 if tier == Q else 8000, 12, dest, cfg="Config_sim.cfg", module="Config")
         plan["jobs"] = plan["jobs"] + [{"cmd": ["config-run", "--n", "0", "--scripts", dest], "label": "tlc-export"}]
         plan["extra_coverage"] = {"tlc_exported_histories": ns}
 
@@ -181,7 +181,7 @@ def c18(pid, tier, replay):
     # second stage: the dispatch pipeline (Pipeline.tla): which format and which driver a call ends up with
     def prepare2(scratch, plan2, vh):
         dest = scratch.path("pipeline-scripts.ndjson")
-        ns, gen = graph.export_scripts(scratch, 240 if tier == Q else 4000, 20, dest, cfg="Pipeline_sim.cfg", module="Pipeline")
+        ns, gen = graph.export_scripts(scratch, 240 if tier == Q else 20000, 20, dest, cfg="Pipeline_sim.cfg", module="Pipeline")
         plan2["jobs"] = [{"cmd": ["pipe-run", "--scripts", dest], "label": "tlc-export"}]
         plan2["extra_coverage"] = {"tlc_exported_histories": ns}
 
@@ -204,7 +204,7 @@ def c18(pid, tier, replay):
 
 
 def c19(pid, tier, replay):
-    n = 25 if tier == Q else 250
+    n = 25 if tier == Q else 1500
     plan = {
         "module": "TraceStore", "cfg": "TraceStore.cfg", "own": r"^store\..*$",
         "design": [("Store", "Store.cfg" if tier == Q else "Store_thorough.cfg", 1800)],
@@ -229,7 +229,7 @@ def c19(pid, tier, replay):
     def prepare(scratch, plan, vh):
         # behaviours of Store.tla (simulation, with its fault actions) are executed on the real backend as well
         dest = scratch.path("store-scripts.ndjson")
-        ns, gen = graph.export_scripts(scratch, 96 if tier == Q else 960, 13, dest, cfg="Store_sim.cfg", module="Store")
+        ns, gen = graph.export_scripts(scratch, 96 if tier == Q else 5000, 13, dest, cfg="Store_sim.cfg", module="Store")
         plan["jobs"] = plan["jobs"] + [{"cmd": ["store-run", "--n", "0", "--scripts", dest], "label": "tlc-export"}]
         plan["extra_coverage"] = {"tlc_exported_histories": ns}
 
@@ -298,7 +298,7 @@ def c01(pid, tier, replay):
 
 
 def c02(pid, tier, replay):
-    return tr(pid, tier, replay, r"^(rt\.cdx\..*|total\.cdx1[45]\..*)$", [("cdx", 120, 1200, 8)],
+    return tr(pid, tier, replay, r"^(rt\.cdx\..*|total\.cdx1[45]\..*)$", [("cdx", 120, 6000, 8)],
               [("TrCDX", "TrCDX_quick.cfg" if tier == Q else "TrCDX_thorough.cfg", 3000)],
               "seeded single-rooted containment trees of 1-6 nodes (chains of maximal depth, random trees, flat), contains "
               "edges stored in random order and random grouping of targets, nodes in random order; CycloneDX-expressible "
@@ -307,7 +307,7 @@ def c02(pid, tier, replay):
 
 
 def c03(pid, tier, replay):
-    return tr(pid, tier, replay, r"^xl\..*$", [("free", 60, 600, 6), ("fixtures", 21, 210, 4), ("spdx", 40, 400, 1), ("cdx", 40, 400, 1)],
+    return tr(pid, tier, replay, r"^xl\..*$", [("free", 60, 3000, 6), ("fixtures", 21, 840, 4), ("spdx", 40, 2000, 1), ("cdx", 40, 2000, 1)],
               [("TrSPDX", "TrSPDX_quick.cfg", 900), ("TrCDX", "TrCDX_quick.cfg", 900)],
               "arbitrary well-formed documents (several purposes, dependsOn and other edges between arbitrary nodes, DAGs, "
               "cycles, none / one / several roots) written in every registered format (SPDX 2.3, CycloneDX 1.0-1.5); plus "
@@ -386,7 +386,7 @@ def c04(pid, tier, replay):
 
 
 def c05(pid, tier, replay):
-    n = 50 if tier == Q else 500
+    n = 50 if tier == Q else 3000
     plan = {
         "module": "TraceTranslate", "cfg": "TraceTranslate.cfg", "own": r"^(parse\..*|idgen\..*)$",
         "design": [("IdGen", "IdGen.cfg", 900), ("TrCDX", "TrCDX_quick.cfg", 900)],
@@ -407,7 +407,7 @@ def c05(pid, tier, replay):
 
 
 def c06(pid, tier, replay):
-    n = 8 if tier == Q else 80
+    n = 8 if tier == Q else 600
     plan = {
         "module": "TraceTranslate", "cfg": "TraceTranslate.cfg", "own": r"^sniff\..*$",
         "design": [("SniffModel", "SniffModel.cfg", 900)],
@@ -428,7 +428,7 @@ def c06(pid, tier, replay):
 def conc_jobs(mode, tier, nshards):
     from common import build_harness as _bh
     racebin = _bh(race=True)
-    n = 40 if tier == Q else 400
+    n = 40 if tier == Q else 2500
     return [{"cmd": ["conc-run", "--racebin", racebin, "--mode", mode, "--n", str(n), "--seed", str(seed() * 100 + i)],
              "label": "%s-%d" % (mode, i)} for i in range(nshards)]
 
